@@ -165,13 +165,17 @@ def build_harness(res, features=(), profile='release', bin='oracle', extra_env=N
     """(re)build the harness against /repo's working tree; returns path of the binary or None"""
     if not shapes_written:
         params.write_if_changed(os.path.join(VERIF, 'harness', 'src', 'gen_shapes.rs'), STUB_SHAPES)
-    tdir = os.path.join(WORK, 'target')
-    cmd = ['cargo', 'build', '--offline', '--bin', bin]
+    cov = os.environ.get('VERIF_COVERAGE') == '1'
+    tdir = os.path.join(WORK, 'target-cov' if cov else 'target')
+    cmd = ['cargo'] + (['+nightly'] if cov else []) + ['build', '--offline', '--bin', bin]
     if profile == 'release':
         cmd.append('--release')
     if features:
         cmd += ['--features', ','.join(sorted(features))]
     env = dict(ENV, CARGO_TARGET_DIR=tdir)
+    if cov:
+        # coverage run (tools/coverage.sh): same sources, instrumented with the nightly toolchain's llvm tools
+        env['RUSTFLAGS'] = (env.get('RUSTFLAGS', '') + ' -C instrument-coverage').strip()
     if extra_env:
         env.update(extra_env)
     rc, out, dt = sh(cmd, cwd=os.path.join(VERIF, 'harness'), timeout=3600, env=env)
@@ -180,12 +184,25 @@ def build_harness(res, features=(), profile='release', bin='oracle', extra_env=N
         res.extra['cargo_error'] = out[-4000:]
         res.cargo_full = out
         return None
-    return os.path.join(tdir, 'release' if profile == 'release' else 'debug', bin)
+    built = os.path.join(tdir, 'release' if profile == 'release' else 'debug', bin)
+    if cov:
+        # keep one instrumented binary per (features, profile, shapes): llvm-cov needs every object that wrote a profile
+        import shutil
+        tag = hashlib.sha1((','.join(sorted(features)) + profile + open(os.path.join(VERIF, 'harness', 'src', 'gen_shapes.rs')).read()).encode()).hexdigest()[:10]
+        os.makedirs(os.path.join(WORK, 'cov', 'bins'), exist_ok=True)
+        kept = os.path.join(WORK, 'cov', 'bins', f'{bin}-{tag}')
+        shutil.copy2(built, kept)
+        return kept
+    return built
 
 
 def run_oracle(binpath, lines, timeout=3600):
+    env = None
+    if os.environ.get('VERIF_COVERAGE') == '1':
+        os.makedirs(os.path.join(WORK, 'cov'), exist_ok=True)
+        env = dict(os.environ, LLVM_PROFILE_FILE=os.path.join(WORK, 'cov', 'oracle-%p-%8m.profraw'))
     p = subprocess.run([binpath], input='\n'.join(lines) + '\n', stdout=subprocess.PIPE, stderr=subprocess.DEVNULL,
-                       text=True, timeout=timeout)
+                       text=True, timeout=timeout, env=env)
     rows = []
     for ln in p.stdout.split('\n'):
         if not ln.strip():
